@@ -569,3 +569,50 @@ def run_model_item(item, res, ID, backends=("numpy",), functions=("rhs",), opts=
                 fail(f"{ID}|{backend}|{ex.stage}-error", f"{key}: accepted/valid model fails at {ex.stage}: {ex}", {"exception": str(ex)})
                 continue
             check_module(ref, mod, res, ID, functions, opts, key, fail, dts=dts)
+
+
+# ---------------------------------------------------------------------------
+# rate family for the scheme properties (C05, C06, C07, C14)
+def rate_family():
+    """-> list of (name, ast) : rate expressions for the own state x (other names: y state, p parameter,
+    i intermediate that itself depends on x and must be held fixed when linearising)"""
+    n = L.num
+    x, y, p, i = L.var("x"), L.var("y"), L.var("p"), L.var("i")
+    out = []
+    coefs = (("2", n("2")), ("-0.5", L.neg(n("0.5"))), ("p", p), ("y", y), ("i", i), ("0", n("0")))
+    offs = (("1", n("1")), ("p", p), ("y", y), ("i", i))
+    for an, a in coefs:
+        for bn, b in offs:
+            out.append((f"affine[{an},{bn}]", L.bin_("+", L.bin_("*", a, x), b)))
+    nl = [
+        ("x**2", L.bin_("**", x, n("2"))), ("x**3", L.bin_("**", x, n("3"))), ("x**p", L.bin_("**", x, p)),
+        ("exp(-x)", L.call("exp", L.neg(x))), ("exp(x*p)", L.call("exp", L.bin_("*", x, p))), ("log(x)", L.call("log", x)),
+        ("sqrt(x)", L.call("sqrt", x)), ("sin(x)", L.call("sin", x)), ("cos(x)", L.call("cos", x)), ("tan(x)", L.call("tan", x)),
+        ("atan(x)", L.call("atan", x)),
+        ("1/x", L.bin_("/", n("1"), x)), ("(1-x)/(p+y)", L.bin_("/", L.bin_("-", n("1"), x), L.bin_("+", p, y))),
+        ("abs(x)", L.call("abs", x)), ("floor(x)", L.call("floor", x)), ("Mod(x,p)", L.call("Mod", x, p)),
+        ("cond-x", L.cond(L.rel("Gt", x, n("0")), L.neg(x), L.bin_("*", n("2"), x))),
+        ("cond-xx", L.cond(L.rel("Lt", x, p), L.bin_("*", x, x), p)),
+        ("cond-and", L.cond(("and", L.rel("Gt", x, n("0")), L.rel("Lt", y, n("1")), L.rel("Ge", p, n("0"))), L.bin_("*", L.neg(p), x), x)),
+        ("ccond", ("ccond", "Gt", x, n("0"), L.bin_("*", n("2"), x), L.neg(x), n("0.5"))),
+        ("x-x", L.bin_("-", x, x)), ("x/x", L.bin_("/", x, x)),
+        ("gate", L.bin_("-", L.bin_("*", p, L.bin_("-", n("1"), x)), L.bin_("*", y, x))),
+        ("(p-x)/y", L.bin_("/", L.bin_("-", p, x), y)), ("x*(1/4)", L.bin_("*", x, L.bin_("/", n("1"), n("4")))),
+        ("-x/(1+y*y)", L.bin_("/", L.neg(x), L.bin_("+", n("1"), L.bin_("*", y, y)))), ("x*y*p", L.bin_("*", L.bin_("*", x, y), p)),
+        ("abs(x)*x", L.bin_("*", L.call("abs", x), x)), ("p*x+t", L.bin_("+", L.bin_("*", p, x), L.var("t"))),
+        ("const", n("1.5")), ("y-only", L.bin_("*", n("2"), y)),
+        ("exp(-x*x)", L.call("exp", L.neg(L.bin_("*", x, x)))), ("x*exp(i)", L.bin_("*", x, L.call("exp", i))),
+        ("stiff", L.bin_("*", L.neg(n("1000")), L.bin_("-", x, p))),
+    ]
+    return out + nl
+
+
+def rate_spec(rate_ast, yrate=None):
+    n = L.num
+    yrate = yrate or L.bin_("-", L.var("p"), L.bin_("*", n("0.75"), L.var("y")))
+    return spec([("x", n("1.0")), ("y", n("2.0"))], [("p", n("0.5"))],
+                [("i", L.bin_("+", L.bin_("*", n("0.5"), L.var("x")), L.var("p"))), ("dx_dt", rate_ast), ("dy_dt", yrate)])
+
+
+def rate_specs():
+    return [(f"rate|{name}", rate_spec(a)) for name, a in rate_family()]
